@@ -6,6 +6,7 @@ import (
 	"crypto/ed25519"
 	"crypto/elliptic"
 	"encoding/base64"
+	"filippo.io/age/plugin"
 	"fmt"
 	"os"
 	"path/filepath"
@@ -116,7 +117,7 @@ func c18Model(c c18Case) (keys []kfLine, firstBad int, mayFailAnyway bool) {
 			return nil, i + 1, false
 		case l.Skip:
 			mayFailAnyway = true
-		case l.Kind == "key" || strings.HasPrefix(l.Kind, "ssh-ok"):
+		case l.Kind == "key" || strings.HasPrefix(l.Kind, "ssh-ok") || l.Kind == "plugin-id":
 			keys = append(keys, l)
 		}
 	}
@@ -125,8 +126,11 @@ func c18Model(c c18Case) (keys []kfLine, firstBad int, mayFailAnyway bool) {
 
 var lineNumRe = regexp.MustCompile(`line (\d+)`)
 
+// the documented warning about a skipped SSH key names that key's type
+var c18SkipWarning = regexp.MustCompile(`ignoring unsupported ssh key of type "[^"]*" at line [0-9]+`)
+
 func c18CheckLeak(c c18Case, msg string) error {
-	low := strings.ToLower(msg)
+	low := c18SkipWarning.ReplaceAllString(strings.ToLower(msg), "")
 	for i, l := range c.Lines {
 		content := l.Text
 		if l.Huge {
@@ -345,7 +349,17 @@ func c18CheckCLI(c c18Case, want []kfLine, firstBad int, mayFail bool) error {
 		os.WriteFile(filepath.Join(dir, "good.txt"), []byte(refage.Bech32Encode("AGE-SECRET-KEY-", p.X25519[7])+"\n"), 0o600)
 		args, extra = append([]string{"-e", "-i", "good.txt"}, args[1:]...), 1
 	}
-	code, _, stderr := runCLI(dir, []string{"PATH=/nonexistent", "HOME=" + dir}, nil, filepath.Join(bin, "age"), args...)
+	env := []string{"PATH=/nonexistent", "HOME=" + dir}
+	for _, l := range c.Lines {
+		if l.Kind == "plugin-id" {
+			// a plugin that wraps to whatever identity it is given
+			pdir := filepath.Join(dir, "plugins")
+			hx.InstallPlugin(dir, pdir, "sim", &hx.PlugScript{Steps: []hx.PlugStep{{Raw: "-> recipient-stanza 0 sim arg\n" + refage.B64(hx.PRG(3, 32)) + "\n"}, {Raw: "-> done\n\n", NoReply: true}}})
+			env = []string{"PATH=" + pdir, "HOME=" + dir, hx.PlugEnv + "=" + dir}
+			break
+		}
+	}
+	code, _, stderr := runCLI(dir, env, nil, filepath.Join(bin, "age"), args...)
 	if code == -2 {
 		return nil
 	}
@@ -373,6 +387,11 @@ func c18CheckCLI(c c18Case, want []kfLine, firstBad int, mayFail bool) error {
 		for i, w := range want {
 			var k refage.Key
 			switch {
+			case w.Kind == "plugin-id":
+				if h.Stanzas[i].Type != "sim" {
+					return pbt.Failf("C18/key-order", "stanza %d of age's output is of type %q; key line %d is a plugin identity (keys are used in file order)", i, h.Stanzas[i].Type, i+1)
+				}
+				continue
 			case w.SSH != "":
 				var kind string
 				var idx int
@@ -438,7 +457,7 @@ func c18GenLine(t *rapid.T, identities, cli bool) kfLine {
 	key := c18KeyString(identities, idx)
 	kinds := []string{"key", "key", "key", "key", "comment", "empty", "bad-huge-comment", "bad-huge-key", "bad-subst", "bad-trunc", "bad-lead-space", "bad-trail-space", "bad-tab", "bad-case", "bad-two-keys", "bad-ws-only", "bad-indented-comment", "bad-crcr", "bad-other-kind", "comment-with-key", "bad-garbage", "bad-payload-length", "bad-q-inserted", "bad-github", "bad-padding"}
 	if cli && !identities {
-		kinds = append(kinds, "ssh-ok-ed25519", "ssh-ok-rsa", "ssh-unsupported-ecdsa", "ssh-unsupported-small-rsa", "bad-ssh-truncated", "bad-ssh-extra", "bad-ssh-typeonly", "bad-long-line", "ssh-ok-ed25519", "bad-ssh-truncated")
+		kinds = append(kinds, "ssh-ok-ed25519", "ssh-ok-rsa", "ssh-unsupported-ecdsa", "ssh-unsupported-small-rsa", "bad-ssh-truncated", "bad-ssh-extra", "bad-ssh-typeonly", "bad-long-line", "ssh-ok-ed25519", "bad-ssh-truncated", "bad-ssh-unsupported-garbage", "bad-ssh-unsupported-garbage")
 	}
 	if cli && identities {
 		kinds = append(kinds, "bad-plugin-name")
@@ -556,6 +575,9 @@ func c18GenLine(t *rapid.T, identities, cli bool) kfLine {
 			typ = "ssh-rsa"
 		}
 		l.Text, l.Bad = typ+" "+base64.StdEncoding.EncodeToString(wire), true
+	case "bad-ssh-unsupported-garbage":
+		// the type name of a key kind that is skipped when valid, followed by something that is no key
+		l.Text, l.Bad = rapid.SampledFrom([]string{"ecdsa-sha2-nistp256 not a key at all", "ecdsa-sha2-nistp256 AAAA", "ssh-rsa AAAAB3NzaC1yc2E", "ecdsa-sha2-nistp256", "sk-ssh-ed25519@openssh.com AAAA"}).Draw(t, "unsupGarbage"), true
 	case "bad-ssh-extra":
 		wire := append(refage.SSHWireEd25519(p.Ed[0].Public().(ed25519.PublicKey)), 0, 0, 0)
 		l.Text, l.Bad = "ssh-ed25519 "+base64.StdEncoding.EncodeToString(wire), true
@@ -714,6 +736,78 @@ func TestC18(t *testing.T) {
 			}
 		}
 		s.St.Exhaust("every position of the public prefix (up to the separator) of an identity and a recipient line substituted by 4 characters or deleted, library and CLI", int64(n))
+	}, check)
+	// identities files that mix plugin identities and native keys, through the command: stanzas come in file order
+	pbt.Each(s, "keyfiles-cli", func(yield func(c18Case)) {
+		n := 0
+		pl := func(i int) kfLine {
+			return kfLine{Kind: "plugin-id", Text: plugin.EncodeIdentity("sim", []byte{byte(i)}), End: "\n"}
+		}
+		nat := func(i int) kfLine { return kfLine{Kind: "key", Key: i, Text: c18KeyString(true, i), End: "\n"} }
+		for _, ls := range [][]kfLine{{pl(1), nat(1)}, {nat(1), pl(1)}, {pl(1), nat(1), pl(2), nat(2)}, {nat(1), nat(2), pl(1)}, {pl(1), pl(2)}, {{Kind: "comment", Text: "# c", End: "\n"}, pl(1), {Kind: "empty", End: "\n"}, nat(3)}} {
+			if s.Mine(n) {
+				yield(c18Case{Identities: true, Lines: ls, Via: "cli"})
+			}
+			n++
+		}
+		s.St.Exhaust("identities files mixing plugin identities and native keys in 6 arrangements, given to age -e -i", int64(n))
+	}, check)
+	// after a valid key of a skipped SSH type, a malformed line that starts with the same type name
+	pbt.Each(s, "keyfiles-cli", func(yield func(c18Case)) {
+		p := hx.ThePool()
+		n := 0
+		for _, first := range []kfLine{{Kind: "ssh-unsupported-ecdsa", Text: ecdsaAuthorizedKey(), End: "\n", Skip: true}, {Kind: "ssh-unsupported-small-rsa", Text: refage.AuthorizedKey("ssh-rsa", refage.SSHWireRSA(&p.RSASmall.PublicKey)), End: "\n", Skip: true}} {
+			typ := strings.SplitN(first.Text, " ", 2)[0]
+			for _, junk := range []string{typ + " not a key at all", typ + " AAAA", typ} {
+				for _, gap := range []int{0, 1} {
+					ls := []kfLine{{Kind: "key", Key: 1, Text: c18KeyString(false, 1), End: "\n"}, first}
+					for g := 0; g < gap; g++ {
+						ls = append(ls, kfLine{Kind: "key", Key: 2, Text: c18KeyString(false, 2), End: "\n"})
+					}
+					ls = append(ls, kfLine{Kind: "bad-ssh-unsupported-garbage", Text: junk, End: "\n", Bad: true})
+					if s.Mine(n) {
+						yield(c18Case{Identities: false, Lines: ls, Via: "cli"})
+					}
+					n++
+				}
+			}
+		}
+		s.St.Exhaust("recipients files in which a valid key of a skipped SSH type is followed, at once or one line later, by a malformed line of the same type name", int64(n))
+	}, check)
+	// files larger than any line reader's first buffer: 60..150 keys, all valid or with one replaced character early or late
+	pbt.Each(s, "keyfiles-big", func(yield func(c18Case)) {
+		n := 0
+		for _, ids := range []bool{true, false} {
+			for _, nk := range []int{54, 55, 60, 66, 70, 150} {
+				for _, badAt := range []int{-1, 0, 1, nk / 2, nk - 1} {
+					for _, via := range []string{"lib", "cli", "keygen"} {
+						if via == "keygen" && !ids {
+							continue
+						}
+						var ls []kfLine
+						for i := 0; i < nk; i++ {
+							l := kfLine{Kind: "key", Key: 100 + i, Text: c18KeyString(ids, 100+i), End: "\n"}
+							if i == badAt {
+								b := []byte(l.Text)
+								pos := len(b) - 10
+								if b[pos] == 'q' || b[pos] == 'Q' {
+									b[pos]++
+								} else {
+									b[pos] = map[bool]byte{true: 'Q', false: 'q'}[ids]
+								}
+								l = kfLine{Kind: "bad-subst", Key: 100 + i, Text: string(b), End: "\n", Bad: true}
+							}
+							ls = append(ls, l)
+						}
+						if s.Mine(n) {
+							yield(c18Case{Identities: ids, Lines: ls, Via: via})
+						}
+						n++
+					}
+				}
+			}
+		}
+		s.St.Exhaust("key files of 54..150 keys (beyond 4096 bytes), all valid or with one replaced character in the first, second, middle or last line, through the library, the age command and age-keygen -y", int64(n))
 	}, check)
 	pbt.Each(s, "keyfiles-read-fault", func(yield func(c18Fault)) {
 		n := 0
